@@ -476,6 +476,20 @@ def tail_checks(case, rec, lens, spec, vig):
     again = np.stack([sg.x, sg.y, sg.z, sg.L, sg.M, sg.N, sg.opd])
     rec.check('repeatable', np.array_equal(again, full, equal_nan=True), key='repeatable:after-unrelated-calls',
               msg='the same batch traced after unrelated trace/paraxial calls is not bit-identical')
+    # what the surface records hold when an analysis starts must not matter: a lone ray, a bundle, nothing
+    from optiland.wavefront import Wavefront
+    outs = []
+    for prep in ('single', 'bundle', 'single-other'):
+        if prep == 'single':
+            lens.trace_generic(0.0, 1.0, 0.0, 0.0, wl)
+        elif prep == 'bundle':
+            lens.trace(0.0, 0.0, wl, 3, 'hexapolar')
+        else:
+            lens.trace_generic(0.0, -0.6, 0.3, 0.2, wl)
+        wf_ = Wavefront(lens, fields=[(0.0, Hy)], wavelengths=[wl], num_rays=case['nr'], distribution='hexapolar')
+        outs.append([np.array(wf_.data[0][0][0], float), np.array(wf_.data[0][0][1], float)])
+    rec.check('repeatable', all(same(outs[0], o_) for o_ in outs[1:]), key='repeatable:wavefront-after-lone-ray-or-bundle',
+              msg='Wavefront of the same field depends on what was traced just before it (a lone ray / a bundle / another lone ray)')
     # a hand-made bundle handed to SurfaceGroup.trace: the caller's arrays (one of them serving several attributes, as a
     # caller naturally writes it) stay what they were, and the result is the one obtained from private copies
     from optiland.rays import RealRays
